@@ -1,6 +1,10 @@
 package main
 
 import (
+	"go/constant"
+	"strings"
+	"unicode"
+
 	"golang.org/x/tools/go/ssa"
 )
 
@@ -210,5 +214,326 @@ func ruleSanitiserSites(r *Run) {
 		if !bad {
 			o.OK("Set(Label(KeyToLabel(key)), value)").At(r.pos(cl.Pos()))
 		}
+	}
+}
+
+// ---------------------------------------------------------------------------
+// FE-CLASS: per-rune behaviour of KeyToLabel and of the identifier predicates
+
+func unicodeHook(w *feWalker, st *feState, v ssa.Value) (constant.Value, bool) {
+	c, ok := v.(*ssa.Call)
+	if !ok {
+		return nil, false
+	}
+	pkg, name := calleePkgName(c)
+	if pkg != "unicode" || len(c.Call.Args) != 1 {
+		return nil, false
+	}
+	a, ok := w.eval(st, c.Call.Args[0])
+	if !ok {
+		return nil, false
+	}
+	r64, _ := constant.Int64Val(a)
+	r := rune(r64)
+	switch name {
+	case "IsLetter":
+		return constant.MakeBool(unicode.IsLetter(r)), true
+	case "IsDigit":
+		return constant.MakeBool(unicode.IsDigit(r)), true
+	case "IsNumber":
+		return constant.MakeBool(unicode.IsNumber(r)), true
+	case "IsSpace":
+		return constant.MakeBool(unicode.IsSpace(r)), true
+	case "IsUpper":
+		return constant.MakeBool(unicode.IsUpper(r)), true
+	case "IsLower":
+		return constant.MakeBool(unicode.IsLower(r)), true
+	}
+	return nil, false
+}
+
+// rune representatives: both sides of every ASCII class boundary plus non-ASCII letters/digits/symbols.
+var classRunes = []rune{0, ' ', '-', '.', '/', '0', '5', '9', ':', '@', 'A', 'M', 'Z', '[', '^', '_', '`', 'a', 'm', 'z', '{', '~', 0x7f,
+	0xe9 /* é */, 0xdf /* ß */, 0x0663 /* ٣ arabic-indic digit */, 0x20ac /* € */, 0x4e2d /* 中 */, 0xfffd}
+
+func runeClass(r rune) string {
+	switch {
+	case r >= '0' && r <= '9':
+		return "digit"
+	case r >= 'a' && r <= 'z' || r >= 'A' && r <= 'Z' || r == '_':
+		return "start"
+	}
+	return "other"
+}
+
+func ruleKeyToLabel(r *Run) {
+	p := r.P
+	fn := p.Func(otelPkg, "KeyToLabel")
+	o := r.Ob("FE-CLASS", "otelstorage.KeyToLabel", "per character: letters, digits and _ are kept (a leading digit gets a _ prefix), every other character becomes _; a key that is already a valid name is returned unchanged")
+	if fn == nil {
+		o.Fail("-", "function not found")
+		return
+	}
+	var nexts []*ssa.Next
+	for _, b := range fn.Blocks {
+		for _, in := range b.Instrs {
+			if n, ok := in.(*ssa.Next); ok && n.IsString {
+				nexts = append(nexts, n)
+			}
+		}
+	}
+	if len(nexts) != 2 {
+		o.Undecide(r.pos(fn.Pos()), "expected a fast and a slow loop over the key's runes, found %d string loops: the function is not the two-phase algorithm this rule understands", len(nexts))
+		return
+	}
+	fast, slow := nexts[0], nexts[1]
+	if slow.Block().Dominates(fast.Block()) {
+		fast, slow = slow, fast
+	}
+	ex := func(n *ssa.Next, i int) ssa.Value {
+		for _, ref := range *n.Referrers() {
+			if e, ok := ref.(*ssa.Extract); ok && e.Index == i {
+				return e
+			}
+		}
+		return nil
+	}
+	builderCalls := func(e *feEnd, until map[*ssa.BasicBlock]bool) (events []string, reached *ssa.BasicBlock) {
+		stopAt := len(e.State.trail)
+		for i, b := range e.State.trail {
+			if i > 0 && until[b] {
+				stopAt = i
+				reached = b
+				break
+			}
+		}
+		maxSeq := 1 << 30
+		if stopAt < len(e.State.trailSeq) {
+			maxSeq = e.State.trailSeq[stopAt]
+		}
+		for _, c := range e.State.calls {
+			if c.Seq > maxSeq {
+				continue
+			}
+			callee := staticCallee(c.Call)
+			if callee == nil || callee.Pkg == nil || callee.Pkg.Pkg.Path() != "strings" {
+				continue
+			}
+			switch callee.Name() {
+			case "WriteString":
+				if s, ok := constStr(c.Call.Common().Args[1]); ok {
+					events = append(events, "write:"+s)
+				} else if sl, ok := c.Call.Common().Args[1].(*ssa.Slice); ok && sl.Low == nil && sl.High != nil {
+					events = append(events, "copyprefix")
+				} else {
+					events = append(events, "write:?"+describe(c.Call.Common().Args[1], 0))
+				}
+			case "WriteRune":
+				if c.Args[1].Known {
+					rv, _ := constant.Int64Val(c.Args[1].C)
+					events = append(events, "rune:"+string(rune(rv)))
+				} else {
+					events = append(events, "rune:?")
+				}
+			case "WriteByte":
+				if c.Args[1].Known {
+					bv, _ := constant.Int64Val(c.Args[1].C)
+					events = append(events, "byte:"+string(rune(bv)))
+				} else {
+					events = append(events, "byte:?")
+				}
+			}
+		}
+		return events, reached
+	}
+	bad := false
+	// ---- fast loop
+	fOK, fIdx, fRune := ex(fast, 0), ex(fast, 1), ex(fast, 2)
+	if fOK == nil || fRune == nil {
+		o.Undecide(r.pos(fn.Pos()), "fast loop does not read the runes")
+		return
+	}
+	stops := map[*ssa.BasicBlock]bool{fast.Block(): true, slow.Block(): true}
+	for _, ch := range classRunes {
+		for _, first := range []bool{true, false} {
+			assume := map[ssa.Value]constant.Value{fOK: constant.MakeBool(true), fRune: constant.MakeInt64(int64(ch))}
+			if fIdx != nil {
+				if first {
+					assume[fIdx] = constant.MakeInt64(0)
+				} else {
+					assume[fIdx] = constant.MakeInt64(3)
+				}
+			}
+			w := &feWalker{Fn: fn, Assume: assume, Hook: unicodeHook}
+			// start right after the Next in the fast header
+			ends := w.RunFrom(fast.Block(), nil)
+			got := map[string]bool{}
+			for _, e := range ends {
+				ev, reached := builderCalls(e, stops)
+				where := "return"
+				switch reached {
+				case fast.Block():
+					where = "continue"
+				case slow.Block():
+					where = "slow"
+				}
+				got[strings.Join(append(ev, where), ",")] = true
+			}
+			want := ""
+			switch cls := runeClass(ch); {
+			case cls == "digit" && first:
+				want = "write:_,slow"
+			case cls == "digit" || cls == "start":
+				want = "continue"
+			default:
+				want = "copyprefix,slow"
+			}
+			if g := joinSet(got); g != want {
+				bad = true
+				o.Fail(r.pos(fn.Pos()), "fast path, character %q (U+%04X) %s: behaviour %q, expected %q", ch, ch, map[bool]string{true: "at the start", false: "not at the start"}[first], g, want)
+			}
+		}
+	}
+	// after copyprefix the slow loop runs over key[i:]; after the digit prefix over the whole key: checked through the slow loop's ranged value
+	// ---- slow loop
+	sOK, sRune := ex(slow, 0), ex(slow, 2)
+	if sOK == nil || sRune == nil {
+		o.Undecide(r.pos(fn.Pos()), "slow loop does not read the runes")
+		return
+	}
+	for _, ch := range classRunes {
+		assume := map[ssa.Value]constant.Value{sOK: constant.MakeBool(true), sRune: constant.MakeInt64(int64(ch))}
+		w := &feWalker{Fn: fn, Assume: assume, Hook: unicodeHook}
+		got := map[string]bool{}
+		for _, e := range w.RunFrom(slow.Block(), nil) {
+			ev, reached := builderCalls(e, map[*ssa.BasicBlock]bool{slow.Block(): true})
+			where := "return"
+			if reached == slow.Block() {
+				where = "continue"
+			}
+			got[strings.Join(append(ev, where), ",")] = true
+		}
+		want := "byte:_,continue"
+		if runeClass(ch) != "other" {
+			want = "rune:" + string(ch) + ",continue"
+		}
+		if g := joinSet(got); g != want {
+			bad = true
+			o.Fail(r.pos(fn.Pos()), "slow path, character %q (U+%04X): behaviour %q, expected %q", ch, ch, g, want)
+		}
+	}
+	// ---- exits: fast loop exhausted -> the key itself; slow loop exhausted -> label.String()
+	{
+		w := &feWalker{Fn: fn, Assume: map[ssa.Value]constant.Value{fOK: constant.MakeBool(false)}, Hook: unicodeHook}
+		for _, e := range w.Run() {
+			if len(e.Results) == 1 && e.Results[0].V != ssa.Value(fn.Params[0]) {
+				bad = true
+				o.Fail(r.pos(e.Term.Pos()), "a key made only of valid characters is returned as %s, not unchanged", describe(e.Results[0].V, 0))
+			}
+		}
+		w2 := &feWalker{Fn: fn, Assume: map[ssa.Value]constant.Value{sOK: constant.MakeBool(false)}, Hook: unicodeHook}
+		for _, e := range w2.RunFrom(slow.Block(), nil) {
+			if len(e.Results) == 1 {
+				c, ok := e.Results[0].V.(*ssa.Call)
+				if !ok || !callIs(c, "strings", "(*Builder).String") {
+					bad = true
+					o.Fail(r.pos(e.Term.Pos()), "after the slow path the function returns %s, not the built label", describe(e.Results[0].V, 0))
+				}
+			}
+		}
+	}
+	if !bad {
+		o.OK("%d rune representatives x {first, not first}: fast and slow tables, both exits agree", len(classRunes)).At(r.pos(fn.Pos()))
+	}
+}
+
+// ruleIdentPredicates: what "valid label name" means to the lexer and to IsValidLabel.
+func ruleIdentPredicates(r *Run) {
+	p := r.P
+	for _, s := range []struct {
+		name string
+		want func(r rune) bool
+	}{
+		{"IsIdentStartRune", func(c rune) bool { return runeClass(c) == "start" }},
+		{"IsIdentRune", func(c rune) bool { return runeClass(c) != "other" }},
+		{"IsDigit", func(c rune) bool { return runeClass(c) == "digit" }},
+		{"IsLetter", func(c rune) bool { return runeClass(c) == "start" && c != '_' }},
+	} {
+		fn := p.Func("internal/lexerql", s.name)
+		o := r.Ob("FE-CLASS", "lexerql."+s.name, "the lexer's notion of identifier characters is ASCII letters, digits and _ – the same alphabet KeyToLabel produces")
+		if fn == nil {
+			o.Fail("-", "function not found")
+			continue
+		}
+		bad := false
+		for _, ch := range classRunes {
+			if ch > 0x7f {
+				// the generic predicate is instantiated for byte and rune; non-ASCII only matters for rune
+			}
+			w := &feWalker{Fn: fn, Assume: map[ssa.Value]constant.Value{fn.Params[0]: constant.MakeInt64(int64(ch))}, Hook: unicodeHook}
+			ends := w.Run()
+			got, known := false, len(ends) > 0
+			for i, e := range ends {
+				if len(e.Results) != 1 || !e.Results[0].Known {
+					known = false
+					break
+				}
+				b := constant.BoolVal(e.Results[0].C)
+				if i > 0 && b != got {
+					known = false
+				}
+				got = b
+			}
+			if !known {
+				bad = true
+				o.Undecide(r.pos(fn.Pos()), "not decidable for %q", ch)
+				break
+			}
+			if got != s.want(ch) {
+				bad = true
+				o.Fail(r.pos(fn.Pos()), "%s(%q U+%04X) = %v, expected %v", s.name, ch, ch, got, s.want(ch))
+			}
+		}
+		if !bad {
+			o.OK("%d representatives agree", len(classRunes)).At(r.pos(fn.Pos()))
+		}
+	}
+	// IsValidLabel uses those predicates: first char through IsIdentStartRune, the rest through IsIdentRune (dots only if allowed)
+	fn := p.Func(logqlPkg, "IsValidLabel")
+	o := r.Ob("PV-API", "logql.IsValidLabel", "a label name is valid iff it is non-empty, starts with an identifier-start character and continues with identifier characters (plus . when dots are allowed)")
+	if fn == nil {
+		o.Fail("-", "function not found")
+		return
+	}
+	usesStart, usesRest, emptyCheck := false, false, false
+	for _, c := range callsIn(fn) {
+		if callee := staticCallee(c); callee != nil {
+			n := callee.Name()
+			if callee.Origin() != nil {
+				n = callee.Origin().Name()
+			}
+			if n == "IsIdentStartRune" {
+				usesStart = true
+			}
+			if n == "IsIdentRune" {
+				usesRest = true
+			}
+		}
+	}
+	allInstrs(fn, func(in ssa.Instruction) {
+		if b, ok := in.(*ssa.BinOp); ok {
+			if c, ok := b.X.(*ssa.Call); ok {
+				if bi, ok := c.Call.Value.(*ssa.Builtin); ok && bi.Name() == "len" {
+					if z, ok := constInt(b.Y); ok && z == 0 {
+						emptyCheck = true
+					}
+				}
+			}
+		}
+	})
+	if usesStart && usesRest && emptyCheck {
+		o.OK("len == 0 rejected; IsIdentStartRune(first); IsIdentRune(rest)").At(r.pos(fn.Pos()))
+	} else {
+		o.Fail(r.pos(fn.Pos()), "empty check=%v, IsIdentStartRune=%v, IsIdentRune=%v", emptyCheck, usesStart, usesRest)
 	}
 }
